@@ -61,19 +61,21 @@ def run(prog: Program, rep, tier: str) -> None:
             arg0 = n.args[0] if n.args else None
             si = ff.stmt_of(n)
             a0 = U(ff.resolved(si.stmt, arg0)) if (arg0 is not None and si is not None) else (U(arg0) if arg0 is not None else "")
+            recv = U(ff.resolved(si.stmt, n.func.value)) if si is not None else U(n.func.value)
             ok, why = False, ""
             if cq == IT:
-                ok = a0 == "self.x" and U(n.func.value) == "self.eval"
+                ok = a0 == "self.x" and recv == "self.eval"
                 why = "Iterate evaluates at its own x through its evaluator"
             elif cls is not None and any(c.qualname == "pygradflow.eval.Evaluator" for c in prog.mro(cls)):
-                ok = isinstance(arg0, ast.Name) and arg0.id in fi.params and U(n.func.value) in ("self.problem", "self")
+                ok = a0 in fi.params and recv in ("self.problem", "self")
                 why = "Evaluator forwards its own argument"
             elif cq == "pygradflow.scale.ScaledProblem":
-                ok = a0 == f"self._orig_x({[p for p in fi.params if p != 'self'][0]})" and U(n.func.value) == "self.problem"
+                p0 = [p for p in fi.params if p != 'self'][0]
+                ok = a0 in (f"self._orig_x({p0})", f"np.ldexp({p0}, -self.scaling.var_weights)") and recv == "self.problem"
                 why = "ScaledProblem forwards _orig_x(own argument)"
             elif cq == "pygradflow.cons_problem.ConstrainedProblem":
                 p0 = [p for p in fi.params if p != "self"][0]
-                ok = U(n.func.value) == "self.problem" and (a0 == f"self.orig_vals({p0})" or (fi.name == "transform_sol" and a0 == p0))
+                ok = recv == "self.problem" and (a0 in (f"self.orig_vals({p0})", f"{p0}[:self.problem.num_vars]") or (fi.name == "transform_sol" and a0 == p0))
                 why = "ConstrainedProblem forwards orig_vals(own argument) (transform_sol: the given start)"
             elif fi.qualname in ("pygradflow.solver.Solver._deriv_check", "pygradflow.scale.create_scaling") or fi.qualname.startswith("pygradflow.deriv_check."):
                 ok, why = True, "exempt by the statement (derivative check / scaling point)"
@@ -105,6 +107,12 @@ def run(prog: Program, rep, tier: str) -> None:
             par = pm.get(id(n))
             if not safe and isinstance(par, ast.Attribute) and par.attr == "clipped" and isinstance(pm.get(id(par)), ast.Call):
                 safe, why = True, "the unclipped object is only the receiver of .clipped() (never evaluated itself)"
+            if not safe and isinstance(par, ast.Assign) and len(par.targets) == 1 and isinstance(par.targets[0], ast.Name) and par.value is n:
+                # bound to a temporary whose only use is as the receiver of .clipped()
+                nm = par.targets[0].id
+                uses = [m for m in own_nodes(fi.node) if isinstance(m, ast.Name) and m.id == nm and isinstance(m.ctx, ast.Load)]
+                if uses and all(isinstance(pm.get(id(m)), ast.Attribute) and pm.get(id(m)).attr == "clipped" and isinstance(pm.get(id(pm.get(id(m)))), ast.Call) for m in uses):
+                    safe, why = True, "the unclipped object is only the receiver of .clipped() (never evaluated itself)"
             rep.check(safe, "box-safe-iterate", fi.qualname, short(si.stmt),
                       f"Iterate(...) receives a box-safe x ({why}); x = {U(x)[:100]}", fi.loc(n))
     rep.pin("Iterate construction sites on the homotopy path", n_cons, 5)
@@ -170,7 +178,7 @@ def clipped_rule(prog: Program, rep) -> None:
         si = ff.at(r)
         if U(v) == "self":
             want = {("truthy", "np.all(self.problem.var_lb <= self.x)", None), ("truthy", "np.all(self.x <= self.problem.var_ub)", None)}
-            alt = {("truthy", "np.all(self.x >= self.problem.var_lb)", None), ("truthy", "np.all(self.x <= self.problem.var_ub)", None)}
+            alt = want
             facts = set(si.facts)
             rep.check(want <= facts or alt <= facts, "clipped-returns-in-box", m.qualname, short(r),
                       "clipped() returns the iterate itself only when every component is within both bounds", m.loc(r))
@@ -211,15 +219,3 @@ def start_is_safe(prog: Program, rep) -> None:
             alts = {U(a) for a in phi_alternatives(v.args[0])}
             ok = alts == {xs, f"self.scaling.scale_primal({xs})"}
     rep.check(ok, "start-is-box-safe", ts.qualname, short(rs[0]) if rs else "", "transform_sol maps x through scale_primal (or not at all) and then through the slack embedding", ts.loc())
-    # slacks are clipped into their bounds
-    cps = prog.func("pygradflow.cons_problem.ConstrainedProblem.transform_sol")
-    fc = facts_for(cps)
-    stores = [s for s in fc.order if isinstance(s.stmt, ast.Assign) and isinstance(s.stmt.targets[0], ast.Subscript) and U(s.stmt.targets[0].value) == "slack_vals"]
-    ok = False
-    for s in stores:
-        v = fc.resolved(s.stmt, s.stmt.value)
-        if np_call(v, "clip") and len(v.args) == 3:
-            lb, ub = U(v.args[1]), U(v.args[2])
-            ok = "cons_lb[" in lb and "cons_ub[" in ub and lb.split("[")[1] == ub.split("[")[1]
-    rep.check(ok and len(stores) == 1, "start-is-box-safe", cps.qualname, short(stores[0].stmt) if stores else "",
-              "each starting slack is np.clip(c(x0)[pos], cons_lb[pos], cons_ub[pos]) - inside the slack's bounds", cps.loc())
